@@ -159,11 +159,12 @@ def run_case(case):
         if i % 17 == 1:
             # only a trailing ImplicitSha256Digest is left out of account; any other last component (a ParametersSha256Digest,
             # a digest-sized generic component) is a component like the others
-            odd = [T.enc_tlv(2, b'\x07' * 32), T.enc_tlv(8, b'\x07' * 32)][(i // 17) % 2]
-            probes.append(('direct+other-last-component', checker, name + [odd]))
+            # (... and of two trailing implicit digests only the last one is the packet's)
+            odd = [[T.enc_tlv(2, b'\x07' * 32)], [T.enc_tlv(8, b'\x07' * 32)], [digest, digest]][(i // 17) % 3]
+            probes.append(('direct+other-last-component', checker, name + odd))
         for label, ck, nm in probes:
             if label == 'direct+other-last-component':
-                want_here = L.match_all(sch, nm, fns, ex)
+                want_here = L.match_all(sch, nm[:-1] if nm[-2:] == [digest, digest] else nm, fns, ex)
             else:
                 want_here = want
             try:
@@ -266,6 +267,10 @@ def _degenerate(tier):
     """The smallest well-formed schemas: no rule at all (an empty file / comments only), one rule."""
     for style in range(6):
         yield {'schema': {'rules': []}, 'style': style}
+        # a temporary rule is the only one that refers to another rule
+        yield {'schema': {'rules': [{'id': '#KEY', 'name': [{'lit': 'K'}, {'pat': '_'}], 'cons': [], 'sign': []},
+                                    {'id': '#_t', 'name': [{'lit': 'a'}, {'ref': '#KEY'}], 'cons': [], 'sign': []},
+                                    {'id': '#r0', 'name': [{'lit': 'b'}, {'pat': 'x'}], 'cons': [], 'sign': []}]}, 'style': style}
         yield {'schema': {'rules': [{'id': '#r0', 'name': [{'lit': 'a'}], 'cons': [], 'sign': []}]}, 'style': style}
         yield {'schema': {'rules': [{'id': '#r0', 'name': [{'pat': 'x'}, {'pat': 'x'}], 'cons': [], 'sign': []}]}, 'style': style}
         yield {'schema': {'rules': [{'id': '#_t', 'name': [{'pat': '_t'}], 'cons': [], 'sign': []}]}, 'style': style}
